@@ -115,6 +115,12 @@ class SymExec:
         self.inline_depth = inline_depth
         self._depth = 0
         self.opaque = {}        # symbol name -> (function name, [argument values])
+        self._scopes = []       # one set of local names per inlined call (callee locals are renamed name@depth)
+
+    def _k(self, name):
+        if self._scopes and name in self._scopes[-1]:
+            return "%s@%d" % (name, len(self._scopes))
+        return name
 
     # ------------------------------------------------------------------ statements
     def run(self, stmts, state):
@@ -182,7 +188,7 @@ class SymExec:
         return [st]
 
     def vardecl(self, v, st):
-        name = v.get("name")
+        name = self._k(v.get("name"))
         ks = [x for x in C.kids(v) if x["kind"] not in ("AlignedAttr", "UnusedAttr")]
         t = C.qtype(v)
         if "[" in t and not (ks and C.strip(ks[-1]).get("kind") == "InitListExpr"):
@@ -266,7 +272,7 @@ class SymExec:
         n = C.strip(n)
         k = n.get("kind")
         if k == "DeclRefExpr":
-            return n["referencedDecl"].get("name")
+            return self._k(n["referencedDecl"].get("name"))
         if k == "ArraySubscriptExpr":
             ks = C.kids(n)
             base = self.expr(ks[0], st)
@@ -310,6 +316,7 @@ class SymExec:
             name = n["referencedDecl"].get("name")
             if n["referencedDecl"].get("kind") == "EnumConstantDecl":
                 return Rat(Poly.var(name))
+            name = self._k(name)
             if name in st.env:
                 return st.env[name]
             t = C.qtype(n)
@@ -451,6 +458,12 @@ class SymExec:
             if ca is not None and cb is not None:
                 return Rat(Poly.const(int(ca) >> int(cb) if op == ">>" else int(ca) << int(cb)))
             return Rat(Poly.var("%s(%s,%s)" % ("shr" if op == ">>" else "shl", _canon(a), _canon(b))))
+        if op in ("|", "&", "^"):
+            ca, cb = a.const_value(), b.const_value()
+            if ca is not None and cb is not None:
+                ia, ib = int(ca), int(cb)
+                return Rat(Poly.const(ia | ib if op == "|" else ia & ib if op == "&" else ia ^ ib))
+            return Rat(Poly.var("bit%s(%s,%s)" % (op, _canon(a), _canon(b))))
         if op in ("<", "<=", ">", ">=", "==", "!="):
             d = a - b
             c = d.const_value()
@@ -510,8 +523,10 @@ class SymExec:
     def inline(self, fn, args, st):
         ps = C.fparams(fn)
         saved = {}
+        scope = {p.get("name") for p in ps} | {v.get("name") for v in C.walk(C.body_of(fn)) if v["kind"] == "VarDecl"}
+        self._scopes.append(scope)
         for p, a in zip(ps, args):
-            pn = p.get("name")
+            pn = self._k(p.get("name"))
             saved[pn] = st.env.get(pn, _MISSING)
             st.env[pn] = a
         self._depth += 1
@@ -519,6 +534,7 @@ class SymExec:
             sub = self.run(C.kids(C.body_of(fn)), st)
         finally:
             self._depth -= 1
+            self._scopes.pop()
         if len(sub) != 1:
             raise Unsupported("inlined function %s forks" % fn.get("name"))
         ret = sub[0].ret
